@@ -30,6 +30,9 @@ def build_jobs(run: Run, quick: bool):
     for k, (label, d) in enumerate(docs.interplay_docs()):
         for le in ((k % 2 == 0,) if quick else (False, True)):
             add(d, label, {"interplay", label.split(":")[1].rsplit("_", 1)[0], "le" if le else "enum"}, cfg={"literal_enums": le}, meta="none")
+    for k, (label, d) in enumerate(docs.rare_feature_docs()):
+        for ci_, cfg_ in enumerate(({}, {"literal_enums": True, "generate_all_tags": True})):
+            add(d, label, {"rare", label.split(":")[1], f"cfg{ci_}"}, cfg=cfg_, meta=["none", "poetry"][ci_])
     # partly invalid documents: C08's bad pieces with dependants in every schema position; whatever remains must import
     from .c08 import BAD_SCHEMAS, insert_bad
     for i in range(60 if quick else 1200):
